@@ -6,7 +6,7 @@ An abstract meta-model is a plain dict (JSON-able, so that it can be stored in r
    "consts": [[name, kind, payload]],     kind: "str"/"int" (payload: values),
                                           "enum" (payload: [enum, [literal names]]),
                                           "prim" (payload: value)
-   "enums": [[name, [literal names]]],
+   "enums": [[name, [literal names]]],    (several; they may share literal names)
    "cprims": [{"name", "base", "parents": [..], "invs": [inv]}],   (one or two parents)
    "classes": [{"name", "parents": [..], "props": [[name, type]], "invs": [inv]},
    "decl_order": [name, ...]}             optional: order of the constrained primitives and
@@ -502,12 +502,19 @@ def gen_model(rng, profile: str = "mixed") -> dict:
             mm["consts"].append([f"S{i}", "str", vals])
         for i in range(rng.choice([0, 1, 2])):
             mm["consts"].append([f"I{i}", "int", rng.sample(INT_VALUES, rng.choice([1, 2, 3]))])
-        if rng.random() < 0.5:
-            mm["enums"].append(["E0", ["L0", "L1", "L2", "L3"]])
-            for i in range(rng.choice([1, 2])):
-                mm["consts"].append([f"ES{i}", "enum",
-                                     ["E0", rng.sample(["L0", "L1", "L2", "L3"],
-                                                       rng.choice([1, 2, 3]))]])
+        if rng.random() < 0.8:
+            # one to three enumerations; they share literal names (E0.L0 is not E1.L0), and
+            # every enumeration gets one or two constant sets of its literals
+            n_enum = rng.choice([1, 2, 2, 3])
+            for j in range(n_enum):
+                lits = ["L0", "L1", "L2", "L3"] if j == 0 else rng.sample(["L0", "L1", "L2", "L3", "L4"], 3)
+                mm["enums"].append([f"E{j}", lits])
+            k = 0
+            for name, lits in mm["enums"]:
+                for _ in range(rng.choice([1, 1, 2])):
+                    mm["consts"].append([f"ES{k}", "enum",
+                                         [name, rng.sample(lits, rng.choice([1, 2, min(3, len(lits))]))]])
+                    k += 1
     if rng.random() < 0.3:
         mm["consts"].append(["K0", "prim", 5])
 
@@ -639,7 +646,9 @@ def gen_model(rng, profile: str = "mixed") -> dict:
                    if beneath_optional(p[1])[0] == "list" or prim_of(p[1]) in ("str", "bytearray")]
         strs = [p[0] for p in avail if prim_of(p[1]) == "str"]
         ints = [p[0] for p in avail if prim_of(p[1]) == "int"]
-        enums = [p[0] for p in avail if beneath_optional(p[1]) == ["our", "E0"]]
+        enum_names = [en_[0] for en_ in mm["enums"]]
+        enums = [(p[0], beneath_optional(p[1])[1]) for p in avail
+                 if beneath_optional(p[1])[0] == "our" and beneath_optional(p[1])[1] in enum_names]
         hot_prop = rng.choice(lenable) if lenable else None
         if n_inv is None:
             n_inv = {"small": rng.choice([1, 2, 3]), "bounds": rng.choice([1, 2, 3, 4]),
@@ -677,25 +686,45 @@ def gen_model(rng, profile: str = "mixed") -> dict:
                                      "same" if guard[1] == target else guard])
                 cls["invs"].append({"e": e, "tags": tags})
             elif r < 0.84 and with_sets and (strs or ints or enums):
-                pools = []
-                if strs:
-                    pools.append(("str", strs))
-                if ints and any(k[1] == "int" for k in mm["consts"]):
-                    pools.append(("int", ints))
-                if enums and any(k[1] == "enum" for k in mm["consts"]):
-                    pools.append(("enum", enums))
-                if not pools:
+                # element type of every constant set / of every candidate property
+                def const_type(k_):
+                    return ("enum", k_[2][0]) if k_[1] == "enum" else ("prim", k_[1])
+                set_consts = [k_ for k_ in mm["consts"] if k_[1] in ("str", "int", "enum")]
+                cand_props = [(pn_, ("prim", "str")) for pn_ in strs] \
+                    + [(pn_, ("prim", "int")) for pn_ in ints] + [(pn_, ("enum", en_)) for pn_, en_ in enums]
+                cand_props = [(pn_, ty_) for pn_, ty_ in cand_props
+                              if any(const_type(k_) == ty_ for k_ in set_consts)]
+                if not cand_props:
                     continue
-                kind, pool = rng.choice(pools)
-                p = rng.choice(pool)
-                cands = [k[0] for k in mm["consts"] if k[1] == kind]
-                if not cands:
-                    continue
-                cs_ = rng.sample(cands, min(len(cands), rng.choice([1, 1, 2])))
+                p, pty = rng.choice(cand_props)
+                matching = [k_[0] for k_ in set_consts if const_type(k_) == pty]
+                others = [k_[0] for k_ in set_consts if const_type(k_) != pty]
+                cs_ = rng.sample(matching, min(len(matching), rng.choice([1, 1, 2])))
+                wrong: List[str] = []
+                if others and rng.random() < 0.12:
+                    # a set of another element type: another enumeration, a primitive set on
+                    # an enumeration property, an enumeration / int set on a str property ...
+                    same_family = [o for o in others
+                                   if const_type(dict((k_[0], k_) for k_ in set_consts)[o])[0] == pty[0]]
+                    w = rng.choice(same_family if same_family and rng.random() < 0.7 else others)
+                    form = rng.choice(["alone", "alone", "with-matching", "with-matching-first"])
+                    wrong = [w]
+                    if form == "alone":
+                        cs_ = [w]
+                    elif form == "with-matching":
+                        cs_ = cs_[:1] + [w]
+                    else:
+                        cs_ = [w] + cs_[:1]
                 ins = [["isin", self_prop(p), ["name", cn]] for cn in cs_]
                 core = ins[0] if len(ins) == 1 else ["and", ins]
                 e, guard = _guarded(rng, core, p, guards, None)
-                cls["invs"].append({"e": e, "tags": [["set", p, cn, guard] for cn in cs_]})
+                if not wrong:
+                    tags = [["set", p, cn, guard] for cn in cs_]
+                elif guard is None or guard == "same":
+                    tags = [["expect_err", f"set {wrong[0]} of another element type on {p}"]]
+                else:
+                    tags = []          # guarded by another property: ignored before the type check
+                cls["invs"].append({"e": e, "tags": tags})
             elif r < 0.88 and rng.random() < 0.25:
                 # forms for which an error must be reported
                 if rng.random() < 0.5 or not (strs and any(k[1] == "int" for k in mm["consts"])):
@@ -740,9 +769,10 @@ def gen_model(rng, profile: str = "mixed") -> dict:
             if with_sets:
                 kinds += ["int", "str", "optstr"]
                 if mm["enums"]:
-                    kinds += ["enum", "optenum"]
+                    kinds += ["enum", "optenum", "enum", "enum"]
             k = rng.choice(kinds)
             cpn = rng.choice(mm["cprims"])["name"] if mm["cprims"] else None
+            en = rng.choice(mm["enums"])[0] if mm["enums"] else None
             if chain_names and rng.random() < 0.75:
                 cpn = rng.choice(chain_names[-2:])
             if join_names and rng.random() < 0.6:
@@ -750,8 +780,8 @@ def gen_model(rng, profile: str = "mixed") -> dict:
             t = {"str": ["prim", "str"], "optstr": ["opt", ["prim", "str"]],
                  "bytes": ["prim", "bytearray"], "liststr": ["list", ["prim", "str"]],
                  "int": ["prim", "int"], "cp": ["our", cpn], "optcp": ["opt", ["our", cpn]],
-                 "listcp": ["list", ["our", cpn]], "enum": ["our", "E0"],
-                 "optenum": ["opt", ["our", "E0"]]}[k]
+                 "listcp": ["list", ["our", cpn]], "enum": ["our", en],
+                 "optenum": ["opt", ["our", en]]}[k]
             props.append([f"a{prop_counter}", t])
             prop_counter += 1
         cls = {"name": f"C{i}", "parents": parents, "props": props, "invs": []}
@@ -876,8 +906,9 @@ def reductions(mm) -> List[dict]:
                 m2 = copy.deepcopy(mm)
                 del m2[key][i]
                 out.append(m2)
-    if mm["enums"] and "'E0'" not in repr([mm["classes"], mm["consts"]]):
-        m2 = copy.deepcopy(mm)
-        m2["enums"] = []
-        out.append(m2)
+    for i, (ename, _) in enumerate(mm["enums"]):
+        if f"'{ename}'" not in repr([mm["classes"], mm["consts"]]):
+            m2 = copy.deepcopy(mm)
+            del m2["enums"][i]
+            out.append(m2)
     return out
